@@ -16,7 +16,7 @@ def tokenOfBytes (l : List Nat) : Nat := l.foldl (fun a b => a * 256 + b) 0
 
 def TOKEN_NONE : Nat := tokenOfBytes P7.TOKEN_NONE
 
-def cfg : Cfg := { chunkLim := 2 ^ P7.CHUNK_SIZE_BITS }
+def cfg : Cfg := { chunkLim := 2 ^ P7.CHUNK_SIZE_BITS, sendChecksLim := false }
 
 inductive Control where
   | keepAlive
